@@ -963,6 +963,22 @@ impl World {
         if self.hosts[host].dead {
             return;
         }
+        // The daemon reads its IPv4 and its IPv6 socket in an order of its own. The trace is
+        // the order of reception every oracle goes by, so a datagram never joins unread ones
+        // of the other family: it waits (same virtual instant) until those have been read.
+        {
+            let ctx = self.hosts[host].ctx.clone();
+            let g = ctx.lock();
+            let other_unread = if v4 { !g.ingress_v6.is_empty() } else { !g.ingress_v4.is_empty() };
+            drop(g);
+            if other_unread {
+                self.seq += 1;
+                let at = self.now();
+                self.pending.push(Pending { at, seq: self.seq, host, v4, pkt, from_host });
+                self.hosts[host].needs_run = true;
+                return;
+            }
+        }
         self.push(
             host,
             Ev::Rx(RxInfo {
